@@ -179,6 +179,50 @@ def cnorm(node: ast.AST, fn_node) -> str:
             x.id = old
 
 
+def _lookup_bindings(fn_node) -> dict:
+    """Locals of the function bound exactly once, by `<D>.get(<K>)`: name -> (D, K)."""
+    cached = getattr(fn_node, "_lookup_binds", None)
+    if cached is not None:
+        return cached
+    counts: dict[str, list] = {}
+    for n in ast.walk(fn_node):
+        if isinstance(n, ast.Assign):
+            for t in n.targets:
+                for x in ast.walk(t):
+                    if isinstance(x, ast.Name):
+                        counts.setdefault(x.id, []).append(n.value if t is x else None)
+        elif isinstance(n, (ast.AugAssign, ast.AnnAssign)) and isinstance(n.target, ast.Name):
+            counts.setdefault(n.target.id, []).append(n.value if isinstance(n, ast.AnnAssign) else None)
+        elif isinstance(n, ast.NamedExpr):
+            counts.setdefault(n.target.id, []).append(n.value)
+        elif isinstance(n, (ast.For, ast.comprehension)):
+            for x in ast.walk(n.target):
+                if isinstance(x, ast.Name):
+                    counts.setdefault(x.id, []).append(None)
+    out = {}
+    for k, v in counts.items():
+        if len(v) == 1 and isinstance(v[0], ast.Call) and isinstance(v[0].func, ast.Attribute) and v[0].func.attr == "get" \
+                and len(v[0].args) == 1 and not v[0].keywords:
+            out[k] = (v[0].func.value, v[0].args[0])
+    try:
+        fn_node._lookup_binds = out
+    except Exception:  # noqa: BLE001
+        pass
+    return out
+
+
+def _canon_test(test: ast.AST, stop) -> str:
+    """Alpha-stable text of an if-test; `x is None` / `x is not None` for a local bound once to `D.get(K)` is printed as the
+    membership test it stands for (`K not in D` / `K in D`), so a lookup written with one dictionary access reads like the
+    two-step form."""
+    if isinstance(test, ast.Compare) and len(test.ops) == 1 and isinstance(test.ops[0], (ast.Is, ast.IsNot)) and isinstance(test.left, ast.Name) \
+            and isinstance(test.comparators[0], ast.Constant) and test.comparators[0].value is None:
+        b = _lookup_bindings(stop).get(test.left.id)
+        if b is not None:
+            return f"{cnorm(b[1], stop)} {'not in' if isinstance(test.ops[0], ast.Is) else 'in'} {cnorm(b[0], stop)}"
+    return cnorm(test, stop)
+
+
 def path_condition(node: ast.AST, stop) -> str:
     """Conjunction of the if-tests controlling ``node`` inside function ``stop`` (alpha-stable text)."""
     parts = []
@@ -187,16 +231,58 @@ def path_condition(node: ast.AST, stop) -> str:
     while p is not None and p is not stop:
         if isinstance(p, ast.If):
             if child in p.body:
-                parts.append(cnorm(p.test, stop))
+                parts.append(_canon_test(p.test, stop))
             elif child in p.orelse:
-                parts.append(f"not ({cnorm(p.test, stop)})")
+                parts.append(f"not ({_canon_test(p.test, stop)})")
         elif isinstance(p, (ast.For, ast.AsyncFor)) and child in p.orelse:
             parts.append("loop-else")
         elif isinstance(p, ast.ExceptHandler):
             parts.append(f"except {norm(p.type) if p.type is not None else ''}".strip())
         child = p
         p = getattr(p, "_parent", None)
+    if not parts:
+        # no test controls the statement itself: what lets a path reach it is that the guard clauses before it (`if T: return`)
+        # did not fire - `if ok: return` followed by a raise is the raise under `not ok`
+        parts = list(reversed(_guard_clause_negations(node, stop)))
     return " and ".join(reversed(parts)) if parts else "always"
+
+
+_FLIP = {ast.Is: ast.IsNot, ast.IsNot: ast.Is, ast.In: ast.NotIn, ast.NotIn: ast.In, ast.Eq: ast.NotEq, ast.NotEq: ast.Eq}
+
+
+def _neg_text(t: ast.AST, stop) -> list[str]:
+    """Conjuncts of `not t` with the negation pushed inwards (De Morgan over `or`, identity / membership / equality comparisons
+    flipped); anything else is printed as `not (…)`."""
+    if isinstance(t, ast.UnaryOp) and isinstance(t.op, ast.Not):
+        return [_canon_test(t.operand, stop)]
+    if isinstance(t, ast.BoolOp) and isinstance(t.op, ast.Or):
+        return [x for v in t.values for x in _neg_text(v, stop)]
+    if isinstance(t, ast.Compare) and len(t.ops) == 1 and type(t.ops[0]) in _FLIP:
+        if isinstance(t.left, ast.Name) and isinstance(t.comparators[0], ast.Constant) and t.comparators[0].value is None \
+                and t.left.id in _lookup_bindings(stop):
+            b = _lookup_bindings(stop)[t.left.id]
+            return [f"{cnorm(b[1], stop)} {'in' if isinstance(t.ops[0], ast.Is) else 'not in'} {cnorm(b[0], stop)}"]
+        flipped = ast.Compare(left=t.left, ops=[_FLIP[type(t.ops[0])]()], comparators=t.comparators)
+        return [cnorm(flipped, stop)]
+    return [f"not ({_canon_test(t, stop)})"]
+
+
+def _guard_clause_negations(node: ast.AST, stop) -> list[str]:
+    out: list[str] = []
+    child = node
+    p = getattr(node, "_parent", None)
+    while p is not None:
+        for fld in ("body", "orelse", "finalbody"):
+            blk = getattr(p, fld, None)
+            if isinstance(blk, list) and child in blk:
+                for s in blk[: blk.index(child)]:
+                    if isinstance(s, ast.If) and not s.orelse and s.body and isinstance(s.body[-1], (ast.Return, ast.Raise, ast.Continue, ast.Break)):
+                        out.extend(_neg_text(s.test, stop))
+        if p is stop:
+            break
+        child = p
+        p = getattr(p, "_parent", None)
+    return out
 
 
 def _caught_locally(node: ast.AST, stop, exc_name: str | None) -> bool:
@@ -273,6 +359,42 @@ class Effects:
 
         from .index import own_nodes
 
+        _deep: list = []
+
+        def deep(is_fresh) -> set[str]:
+            """Local containers all of whose elements were created in this call: every binding is a literal of fresh elements (or an
+            empty constructor) and everything put in later - also by nested functions, which share the variable - is a fresh
+            expression; any other mutator or an escape into a call leaves the name out."""
+            if _deep:
+                return _deep[0]
+            cand: dict[str, bool] = {}
+            for n in ast.walk(f.node):
+                tgt = val = None
+                if isinstance(n, ast.Assign) and len(n.targets) == 1 and isinstance(n.targets[0], ast.Name):
+                    tgt, val = n.targets[0].id, n.value
+                elif isinstance(n, ast.AnnAssign) and isinstance(n.target, ast.Name) and n.value is not None:
+                    tgt, val = n.target.id, n.value
+                if tgt is None or tgt in params:
+                    continue
+                okv = (isinstance(val, (ast.List, ast.Tuple, ast.Set)) and all(isinstance(x, ast.Call) and dotted_of(x.func) in ("set", "list", "dict", "frozenset") for x in val.elts)) or (
+                    isinstance(val, ast.Call) and dotted_of(val.func) in ("list", "set", "dict") and not val.args)
+                cand[tgt] = cand.get(tgt, True) and okv
+            for n in ast.walk(f.node):
+                if isinstance(n, ast.Call) and isinstance(n.func, ast.Attribute) and isinstance(n.func.value, ast.Name) and n.func.value.id in cand:
+                    nm = n.func.value.id
+                    if n.func.attr in ("append", "add"):
+                        a = n.args[0] if n.args else None
+                        if not (isinstance(a, ast.Call) and dotted_of(a.func) in ("set", "list", "dict", "frozenset")):
+                            cand[nm] = False
+                    elif n.func.attr in ("extend", "update", "insert", "__setitem__", "setdefault"):
+                        cand[nm] = False
+                elif isinstance(n, (ast.Assign, ast.AugAssign)):
+                    for t in (n.targets if isinstance(n, ast.Assign) else [n.target]):
+                        if isinstance(t, ast.Subscript) and isinstance(t.value, ast.Name) and t.value.id in cand:
+                            cand[t.value.id] = False
+            _deep.append({k for k, v in cand.items() if v})
+            return _deep[0]
+
         assumed: set[str] = set()
         for _ in range(3):
             # every round starts afresh and may rely on what the previous round established (a local is fresh when all its
@@ -290,6 +412,13 @@ class Effects:
                     if n.target.id not in params:
                         fresh[n.target.id] = fresh.get(n.target.id, True) and is_fresh_expr(n.value)
                 elif isinstance(n, (ast.For, ast.comprehension)):
+                    it = n.iter
+                    if isinstance(it, ast.Subscript) and isinstance(it.slice, ast.Slice):
+                        it = it.value
+                    if isinstance(n.target, ast.Name) and isinstance(it, ast.Name) and fresh.get(it.id, False) and it.id in deep(is_fresh_expr):
+                        # the elements of a container built in this call that only ever received objects built in this call
+                        fresh[n.target.id] = fresh.get(n.target.id, True)
+                        continue
                     for t in ast.walk(n.target):
                         if isinstance(t, ast.Name):
                             fresh[t.id] = False
@@ -767,6 +896,12 @@ class Effects:
                         if isinstance(t, ast.Compare) and len(t.ops) == 1 and isinstance(t.ops[0], ast.NotIn) \
                                 and norm(t.comparators[0]) == want_d and self._pure_value_of(f, t.left) == want_k:
                             return True
+                        if isinstance(t, ast.Compare) and len(t.ops) == 1 and isinstance(t.ops[0], ast.Is) and isinstance(t.left, ast.Name) \
+                                and isinstance(t.comparators[0], ast.Constant) and t.comparators[0].value is None:
+                            # `x = D.get(K)` … `if x is None: raise` (a dictionary that holds no None)
+                            b = _lookup_bindings(f.node).get(t.left.id)
+                            if b is not None and norm(b[0]) == want_d and self._pure_value_of(f, b[1]) == want_k:
+                                return True
                     if isinstance(s, (ast.Assign, ast.Expr, ast.AnnAssign, ast.AugAssign)):
                         for x in ast.walk(s):
                             if isinstance(x, ast.Subscript) and isinstance(x.ctx, ast.Load) and norm(x.value) == want_d \
